@@ -5,6 +5,7 @@ package main
 // The harness plays that participant by rewriting its result before it reaches its node.
 
 import (
+	"encoding/hex"
 	"encoding/json"
 	"fmt"
 	"os"
@@ -57,6 +58,7 @@ func (a *algRun) c11Scenario(outDir string, n, t, dealer, victim int, dev deviat
 		a.mon("harness: " + err.Error())
 		return
 	}
+	c.airTrace = a.air
 	defer c.close()
 	round, err := c.startDKG(t)
 	if err != nil {
@@ -86,6 +88,9 @@ func (a *algRun) c11Scenario(outDir string, n, t, dealer, victim int, dev deviat
 			}
 			fresh := func() ([]byte, string) {
 				s := a.suit.G1().Scalar().Pick(a.suit.RandomStream())
+				if a.air != nil {
+					a.air.knownScalar(s)
+				}
 				p := a.suit.G1().Point().Mul(s, nil)
 				bz, _ := p.MarshalBinary()
 				return bz, "x" + scalarHex(s)
@@ -336,6 +341,7 @@ func (a *algRun) c11Run(outDir, tier string) {
 			if err != nil {
 				return
 			}
+			c.airTrace = a.air
 			defer c.close()
 			round, _ := c.startDKG(cf.t)
 			c.resultHook = func(nd *vnode, res *types.Operation) {}
@@ -387,6 +393,19 @@ func forgeDealAgreeingAt(c *cluster, dealer, victim int, honestCT []byte, t int)
 	}
 	commits[0] = suite.Point().Add(commits[0], suite.Point().Mul(d0, nil))
 	commits[1] = suite.Point().Add(commits[1], suite.Point().Mul(r, nil))
+	if tr := c.airTrace; tr != nil {
+		// the discrete logarithms of the two forged points: those of the honest ones plus d0 and r
+		for k, dl := range []kyber.Scalar{d0, r} {
+			if h, ok := tr.scal[pointHex(honest.Commitments[k])]; ok {
+				if bz, err := hex.DecodeString(h); err == nil {
+					base := suite.Scalar()
+					if base.UnmarshalBinary(bz) == nil {
+						tr.knownScalar(suite.Scalar().Add(base, dl))
+					}
+				}
+			}
+		}
+	}
 	forged := &vssPedersen.Deal{SessionID: honest.SessionID, SecShare: honest.SecShare, T: honest.T, Commitments: commits}
 	dealerObj, err := vssPedersen.NewDealer(suite, M.VerifSecKey(), suite.Scalar().Pick(suite.RandomStream()), pubs, t, suite.RandomStream())
 	if err != nil {
